@@ -335,7 +335,8 @@ func (env *Env) fieldOf(base Val, name string) (Val, error) {
 		cur = Val{T: vc.loadLoc(env.heap, cur.Loc), Typ: cur.Typ.Underlying().(*types.Pointer).Elem()}
 	}
 	if env.quant == 0 && cur.T != "" && cur.Loc == nil && os.Getenv("NOSF") == "" {
-		if _, isInt := intInfo(cur.Typ); isInt || isRefLike(cur.Typ) {
+		_, isSlice := cur.Typ.Underlying().(*types.Slice)
+		if _, isInt := intInfo(cur.Typ); isInt || isRefLike(cur.Typ) || isSlice || types.IsInterface(cur.Typ) {
 			nv := vc.namedVal("sf_"+name, cur)
 			vc.setRng(nv.T, vc.wf(nv.T, cur.Typ, ""))
 			cur = nv
@@ -847,6 +848,15 @@ func (env *Env) call(x *ast.CallExpr) (Val, error) {
 			return Val{}, err
 		}
 		return boolVal(sAnd(sApp(">=", a.T, vc.alloc(env.old)), sApp("<", a.T, vc.alloc(env.heap)))), nil
+	case "ref":
+		a, err := arg(0)
+		if err != nil {
+			return Val{}, err
+		}
+		if a.Typ != nil && types.IsInterface(a.Typ) {
+			return mathVal(sApp("i-val", a.T)), nil
+		}
+		return mathVal(a.T), nil
 	case "tagof":
 		a, err := arg(0)
 		if err != nil {
